@@ -71,6 +71,12 @@ def real_trace_batch(acc, batch, prop=None):
     realtier.trace_batch(acc, batch, prop=prop)
 
 
+def real_output_batch(acc, batch, prop=None):
+    from mc import realtier
+
+    realtier.output_batch(acc, batch, prop=prop)
+
+
 def real_kill_batch(acc, batch, prop=None):
     from mc import realtier
 
@@ -128,6 +134,7 @@ def run_pool(ctx, module, prop):
         items += [(sc2, ch) for _k, ch in found]
     ctx.pmap(module, "real_trace_batch", items, chunk=1, prop=prop)
     if prop == "C13":
+        ctx.pmap(module, "real_output_batch", ["big-stderr-first", "big-stdout-first", "interleaved", "small-nonzero"], chunk=1, prop=prop)
         ctx.pmap(module, "real_kill_batch", [(k, how, n) for n, (k, how) in enumerate((k, h) for k in realtier.KILL_SCRIPTS for h in ("cancel", "timeout"))], chunk=1, prop=prop)
     ctx.traces_validated = ctx.acc.extra["traces_validated"]
     ctx.notes.setdefault("coverage_extra", {})["real_process_traces_replayed"] = len(items)
@@ -149,6 +156,12 @@ def replay_pool(case, prop):
 
         acc = Acc()
         realtier.kill_batch(acc, [(case["script"], case["how"], case["n"])])
+        return acc.violations
+    if case.get("kind") == "real-output":
+        from mc import realtier
+
+        acc = Acc()
+        realtier.output_batch(acc, [case["script"]])
         return acc.violations
     if case.get("kind") == "real-trace":
         from mc import realtier
